@@ -99,7 +99,7 @@ def main(tier, replay):
         case = json.load(open(replay))['case']
         rec = one(tuple(case['job'])); print(rec['bad']); sys.exit(1 if rec['bad'] else 0)
     rng = chk.rng
-    runs = 40 if tier == 'quick' else 1500
+    runs = 80 if tier == 'quick' else 1500
     jobs = []
     for i in range(runs):
         nprod = rng.choice([2, 4, 8]); nev = rng.choice([100, 300, 600]) if nprod < 8 else rng.choice([50, 150])
